@@ -66,3 +66,39 @@ Print Assumptions C12_add_result.
 Example C12_family_example :
   family_spec [of_results [w_r1; w_r3]; of_results [w_r2; w_r1]] [114; 49]%N [97]%N = [w_r1; w_r1].
 Proof. vm_compute. reflexivity. Qed.
+
+(** Readers.  Full statement: for all generated Sonar/SARIF/DefectDojo documents, parsed findings == reference
+    extraction (every open issue AND hotspot that carries a location; every location of every result of every run). *)
+From CM Require Import Model.Readers Model.Sarif Spec.ReadersSpec Spec.SarifSpec Proofs.ReadersFacts Proofs.SarifFacts.
+
+Definition C12_sonar_statement (v : sonar_select) : Prop :=
+  match v with
+  | IssuesPlusHotspots => forall doc, wf_sonar doc = true -> sonar_reader v doc = sonar_spec doc
+  | IssuesOrElse => exists doc, wf_sonar doc = true /\ sonar_reader v doc <> sonar_spec doc
+  end.
+Lemma C12_sonar_all v : C12_sonar_statement v.
+Proof. destruct v; simpl; [exists w_doc; exact sonar_pinned_refuted | exact sonar_reader_spec]. Qed.
+Theorem C12_sonar_reader : C12_sonar_statement sonar_select_expr.
+Proof. exact (C12_sonar_all sonar_select_expr). Qed.
+Print Assumptions C12_sonar_reader.
+
+Example C12_sonar_example : wf_sonar w_doc = true /\ length (sonar_spec w_doc) = 2.
+Proof. split; vm_compute; reflexivity. Qed.
+
+(** SARIF and DefectDojo readers: whenever the reader does not raise, it files exactly the reference extraction
+    (_partial: the documents on which the readers raise are not characterised here; the harness observes them). *)
+Theorem C12_semgrep_reader_partial : forall doc fs, semgrep_reader doc = Some fs -> fs = semgrep_spec doc.
+Proof. exact semgrep_reader_sound. Qed.
+Print Assumptions C12_semgrep_reader_partial.
+Theorem C12_codeql_reader_partial : forall doc fs, codeql_reader doc = Some fs -> fs = codeql_spec doc.
+Proof. exact codeql_reader_sound. Qed.
+Print Assumptions C12_codeql_reader_partial.
+Theorem C12_dd_reader_partial : forall doc fs, dd_reader doc = Some fs -> fs = dd_spec doc.
+Proof. exact dd_reader_sound. Qed.
+Print Assumptions C12_dd_reader_partial.
+(** foreign runs next to CodeQL runs do not disturb the CodeQL findings *)
+Theorem C12_codeql_foreign_runs : forall runs1 runs2,
+  codeql_spec (JObj [(s_runs, JArr (runs1 ++ runs2))]) =
+  codeql_spec (JObj [(s_runs, JArr runs1)]) ++ codeql_spec (JObj [(s_runs, JArr runs2)]).
+Proof. exact codeql_spec_app. Qed.
+Print Assumptions C12_codeql_foreign_runs.
